@@ -836,6 +836,11 @@ static int conf_replace_value(struct conf_node_base *target_, struct conf_node_b
         } else {
             target->value = NULL;
             conf_parse_string_value(target);
+            /* Reverting to a NULL default is a change that
+             * conf_parse_string_value() cannot see any more.
+             */
+            if (orig_value && !target->value && target_->hook)
+                target_->hook(target_);
         }
         xfree(orig_value);
         break;
